@@ -1,7 +1,7 @@
 (* Proofs/FaultyProof.v — C12: a copy-up that is interrupted by one fault leaves the layer with no
    entry, the untouched older entry, or a complete copy, and reports an error otherwise. *)
 From AF Require Import Lib.Bytes Lib.Path Lib.Ops Gen.Consts Model.MemFile Model.MemFs Model.Union Model.Cow Model.Cache
-  Model.Faulty Proofs.PathProof Proofs.FaultyMem.
+  Model.Faulty Proofs.PathProof Proofs.MemBelow Proofs.FaultyMem.
 Local Open Scope Z_scope.
 
 (* ---------------------------------------------------------------- the injector, call by call *)
@@ -500,7 +500,7 @@ Lemma mkdir_create_layer pl sb s0 m : amo_from pl m ->
 Proof.
   intros Hamo Hr Hs.
   destruct (faulty_plain m_step pl s0 m (MkdirAll (path_dir name) 511) eq_refl) as [H|(e & He & H)]; rewrite H.
-  - destruct Hs as [[P Hent]|[Lp Ln]].
+  - destruct Hs as [[P Hent]|[Lp [Ln Hclr]]].
     + (* the parent is there: nothing happens *)
       destruct P as (p & pn & Lpk & Gp & Ap & Bp).
       rewrite (mkdirall_existing s0 (path_dir name) 511 p Lpk). cbn [fst snd].
@@ -509,7 +509,7 @@ Proof.
       rewrite E2. exists sb', sl', n', r, ab. split; [reflexivity|]. repeat split; auto; try lia.
       intros Hne. eapply fault_used_mono; [| |exact (U2 Hne)]; lia.
     + (* the parent chain is created *)
-      destruct (mkdirall_fresh s0 (path_dir name) 511 Lp) as (s' & E & G & (item & nd & Li & Gi & Ai & Bi) & K).
+      destruct (mkdirall_fresh s0 (path_dir name) 511 Lp (chain_clear_below_file s0 _ Hclr)) as (s' & E & G & (item & nd & Li & Gi & Ai & Bi) & K).
       rewrite E. cbn [fst snd].
       assert (Ln' : lookup s' name = None).
       { destruct (lookup s' name) eqn:El; [|reflexivity]. exfalso.
@@ -537,7 +537,7 @@ Proof.
   intros Hamo Hr Hs. rewrite copy_file_unfold, (copy_dir_normal name Hn). unfold l_exists.
   destruct (faulty_plain m_step pl sl n0 (Stat (path_dir name)) eq_refl) as [H|(e & He & H)]; rewrite H.
   - (* Stat performed *)
-    destruct Hs as [[P Hent]|[Lp Ln]].
+    destruct Hs as [[P Hent]|[Lp [Ln Hclr]]].
     + destruct P as (p & pn & Lpk & Gp & Ap & Bp).
       rewrite (stat_found sl (path_dir name) p pn Lpk Gp). cbn [fst snd].
       destruct (copy_create_layer pl sb (bump sl) (S n0) (amo_from_le pl n0 (S n0) ltac:(lia) Hamo) Hr) as (sb' & sl' & n' & r & ab & E2 & R2 & D2 & M2 & S2 & N2 & U2 & O2).
@@ -546,7 +546,7 @@ Proof.
       intros Hne. eapply fault_used_mono; [| |exact (U2 Hne)]; lia.
     + rewrite (stat_missing sl (path_dir name) Lp). cbn [fst snd is_not_exist ek EW].
       destruct (mkdir_create_layer pl sb (bump sl) (S n0) (amo_from_le pl n0 (S n0) ltac:(lia) Hamo) Hr) as (sb' & sl' & n' & r & ab & E2 & R2 & D2 & M2 & S2 & N2 & U2 & O2).
-      { right. now split. }
+      { right. split; [exact Lp|]. split; [exact Ln|]. exact (cosmetic_mkdirall_clear sl (bump sl) _ (cosmetic_bump sl) Hclr). }
       rewrite E2. exists sb', sl', n', r, ab. split; [reflexivity|]. repeat split; auto; try lia.
       intros Hne. eapply fault_used_mono; [| |exact (U2 Hne)]; lia.
   - (* Stat refused with e *)
@@ -589,7 +589,7 @@ Lemma copy_file_base pl sb nB sl :
     outcome name nb sl sl' r.
 Proof.
   intros Hr Hs. rewrite copy_file_unfold, (copy_dir_normal name Hn). unfold l_exists.
-  destruct Hs as [[P Hent]|[Lp Ln]].
+  destruct Hs as [[P Hent]|[Lp [Ln Hclr]]].
   - destruct P as (p & pn & Lpk & Gp & Ap & Bp).
     rewrite (stat_found sl (path_dir name) p pn Lpk Gp).
     destruct (copy_create_base pl sb nB (bump sl) Hr) as (sb' & n' & sl' & r & ab & E2 & R2 & D2 & M2 & S2 & O2).
@@ -597,7 +597,9 @@ Proof.
     rewrite E2. exists sb', n', sl', r, ab. split; [reflexivity|]. repeat split; auto.
     destruct O2 as [O2|O2]; [left; exact O2 | right; right; exact O2].
   - rewrite (stat_missing sl (path_dir name) Lp). cbn [is_not_exist ek EW].
-    destruct (mkdirall_fresh (bump sl) (path_dir name) 511 Lp) as (s' & E & G & (item & nd & Li & Gi & Ai & Bi) & K).
+    destruct (mkdirall_fresh (bump sl) (path_dir name) 511 Lp
+                (chain_clear_below_file (bump sl) _ (cosmetic_mkdirall_clear sl (bump sl) _ (cosmetic_bump sl) Hclr)))
+      as (s' & E & G & (item & nd & Li & Gi & Ai & Bi) & K).
     rewrite E.
     assert (Ln' : lookup s' name = None).
     { destruct (lookup s' name) eqn:El; [|reflexivity]. exfalso.
